@@ -119,7 +119,7 @@ func c08Fire(r *R, f *core.FSM) {
 	r.c.Floor("C08.3", nPause, 2, "pausing paths of fireProgressEvent")
 	if fn := f.Action["DataLimitExceeded"]; fn != nil {
 		sts := storesTo(fn, "ResponderPaused")
-		r.c.Check(len(sts) == 1 && r.d.Of(sts[0].Val) == "true", "C08.3", "DataLimitExceeded/action", r.p.Pos(fn.Pos()), "marks the responder paused", "the DataLimitExceeded action does not set ResponderPaused = true")
+		r.c.Check(len(sts) == 1 && f.ActionD(r.p, "DataLimitExceeded").Of(sts[0].Val) == "true", "C08.3", "DataLimitExceeded/action", r.p.Pos(fn.Pos()), "marks the responder paused", "the DataLimitExceeded action does not set ResponderPaused = true")
 	}
 }
 
